@@ -20,14 +20,16 @@ import (
 
 // Topo is the shape of the one pipeline of a case.
 type Topo struct {
-	Engine  string `json:"engine"`   // v1 | v2
-	Sources int    `json:"sources"`  // s1..sN
-	Dests   int    `json:"dests"`    // d1..dM
-	Procs   int    `json:"procs"`    // pipeline processors p1..pK (single worker)
-	SrcProc bool   `json:"src_proc"` // one processor attached to s1
-	Workers int    `json:"workers"`  // >1: the first pipeline processor runs with this many workers (v1: ParallelNode)
-	DLQSize int    `json:"dlq_size"` // nack window
-	DLQThr  int    `json:"dlq_thr"`
+	Engine  string `json:"engine"`  // v1 | v2
+	Sources int    `json:"sources"` // s1..sN
+	Dests   int    `json:"dests"`   // d1..dM
+	Procs   int    `json:"procs"`   // pipeline processors p1..pK (single worker)
+	// ProcNames, if set, are the ids of the pipeline processors in chain order (instead of p1..pK)
+	ProcNames []string `json:"proc_names,omitempty"`
+	SrcProc   bool     `json:"src_proc"` // one processor attached to s1
+	Workers   int      `json:"workers"`  // >1: the first pipeline processor runs with this many workers (v1: ParallelNode)
+	DLQSize   int      `json:"dlq_size"` // nack window
+	DLQThr    int      `json:"dlq_thr"`
 }
 
 const PipelineID = "pl"
@@ -150,6 +152,8 @@ type Sys struct {
 	PL        *pipeline.Instance
 	Persister *connector.Persister
 	Store     *connector.Store
+	db        database.DB
+	rec       *lifecyclev1.ErrRecoveryCfg
 	V1        *lifecyclev1.Service
 	V2        *lifecyclev2.Service
 
@@ -196,7 +200,7 @@ func NewSys(t Topo) (*Sys, error) {
 	reg := NewProcRegistry(w)
 	prs := processor.NewService(logger, gdb, reg)
 
-	s := &Sys{W: w, Topo: t, PS: ps, CS: cs, PRS: prs, Reg: reg, Persister: persister, Store: gdb.store}
+	s := &Sys{W: w, Topo: t, PS: ps, CS: cs, PRS: prs, Reg: reg, Persister: persister, Store: gdb.store, db: gdb}
 	pl, err := ps.Create(ctx, PipelineID, pipeline.Config{Name: PipelineID}, pipeline.ProvisionTypeAPI)
 	if err != nil {
 		return nil, err
@@ -225,8 +229,14 @@ func NewSys(t Topo) (*Sys, error) {
 		}
 		s.DstIDs = append(s.DstIDs, id)
 	}
-	for i := 1; i <= t.Procs; i++ {
-		id := fmt.Sprintf("p%d", i)
+	names := t.ProcNames
+	if len(names) == 0 {
+		for i := 1; i <= t.Procs; i++ {
+			names = append(names, fmt.Sprintf("p%d", i))
+		}
+	}
+	for i0, id := range names {
+		i := i0 + 1
 		workers := 1
 		if i == 1 && t.Workers > 1 {
 			workers = t.Workers
@@ -259,6 +269,7 @@ func NewSys(t Topo) (*Sys, error) {
 
 	rec := &lifecyclev1.ErrRecoveryCfg{MinDelay: time.Millisecond, MaxDelay: 5 * time.Millisecond,
 		BackoffFactor: 2, MaxRetries: 2, MaxRetriesWindow: 50 * time.Millisecond}
+	s.rec = rec
 	sw := &statusWrap{w: w, ps: ps}
 	switch t.Engine {
 	case "v1":
@@ -299,6 +310,20 @@ func (s *Sys) doCall(ctx context.Context, name string) error {
 			return s.V1.WaitPipeline(PipelineID)
 		}
 		return s.V2.WaitPipeline(PipelineID)
+	case "stopall":
+		// graceful shutdown of the whole engine
+		if s.V1 != nil {
+			s.V1.StopAll(ctx, pipeline.ErrGracefulShutdown)
+			return nil
+		}
+		return s.V2.StopAll(ctx, false)
+	case "stopallforce":
+		// forced shutdown (the default engine has no such call: shutdown, then force stop)
+		if s.V1 != nil {
+			s.V1.StopAll(ctx, pipeline.ErrGracefulShutdown)
+			return s.V1.Stop(ctx, PipelineID, true)
+		}
+		return s.V2.StopAll(ctx, true)
 	}
 	panic("unknown call " + name)
 }
@@ -331,6 +356,44 @@ func (s *Sys) Call(name string) (int, <-chan struct{}) {
 		s.W.Log(ev)
 	}()
 	return id, done
+}
+
+// Reboot replaces every service by a fresh one on the SAME store (as after a process restart)
+// and runs the lifecycle service's Init, which starts the pipelines the store says were stopped
+// by the system. The log brackets it with "boot" / "booted" (X = status afterwards).
+func (s *Sys) Reboot() error {
+	ctx := context.Background()
+	logger := log.Nop()
+	s.W.Log(Ev{K: "boot"})
+	ps := pipeline.NewService(logger, s.db)
+	cs := connector.NewService(logger, s.db, s.Persister)
+	prs := processor.NewService(logger, s.db, s.Reg)
+	if err := ps.Init(ctx); err != nil {
+		return err
+	}
+	if err := cs.Init(ctx); err != nil {
+		return err
+	}
+	if err := prs.Init(ctx); err != nil {
+		return err
+	}
+	pl, err := ps.Get(ctx, PipelineID)
+	if err != nil {
+		return err
+	}
+	s.PS, s.CS, s.PRS, s.PL = ps, cs, prs, pl
+	sw := &statusWrap{w: s.W, ps: ps}
+	var ierr error
+	if s.V1 != nil {
+		s.V1 = lifecyclev1.NewService(logger, s.rec, cs, prs, PluginService{W: s.W}, sw)
+		ierr = s.V1.Init(ctx)
+	} else {
+		s.V2 = lifecyclev2.NewService(logger, s.rec, cs, prs, PluginService{W: s.W}, sw, true)
+		ierr = s.V2.Init(ctx)
+	}
+	s.W.Settle(300*time.Microsecond, 10*time.Millisecond)
+	s.W.Log(Ev{K: "booted", X: s.Status()})
+	return ierr
 }
 
 // Reconfigure swaps processor id live (v1) after marking whether the new instance opens.
